@@ -76,6 +76,7 @@ func oos(format string, a ...interface{}) {
 // ---------------------------------------------------------------------------------------------
 
 type Universe struct {
+	shallow    bool // WFShallow in progress
 	decls      []string
 	declared   map[string]bool
 	sorts      map[string]*Sort // by SMT name
@@ -616,6 +617,17 @@ func (u *Universe) WF(v Val) string {
 	return u.wf(v, 0)
 }
 
+// WFShallow: the type invariant without nested quantifiers (for a slice: length/capacity bounds only, not the
+// ranges of its elements). Used as the guard of spec-level binders, so that a quantified lemma can be instantiated
+// without first having to prove a universally quantified hypothesis about the instance. Dropping part of a guard
+// only makes the quantified statement stronger - and it is proved in that stronger form. (The ranges of scalar
+// elements are kept: lemmas about sums of unsigned weights need them.)
+func (u *Universe) WFShallow(v Val) string {
+	u.shallow = true
+	defer func() { u.shallow = false }()
+	return u.wf(v, 0)
+}
+
 func (u *Universe) wf(v Val, depth int) string {
 	if v.S == nil || depth > 6 {
 		return "true"
@@ -672,7 +684,7 @@ func (u *Universe) wf(v Val, depth int) string {
 		iv := fmt.Sprintf("wi%d", u.fresh)
 		ev := Val{T: fmt.Sprintf("(select %s %s)", slEl(v), iv), S: v.S.Elem, GoT: et}
 		ew := u.wf(ev, depth+1)
-		if ew != "true" {
+		if ew != "true" && (!u.shallow || (v.S.Elem != nil && v.S.Elem.Kind == KInt)) {
 			cs = append(cs, fmt.Sprintf("(forall ((%s Int)) (! (=> (and (<= 0 %s) (< %s %s)) %s) :pattern ((select %s %s))))", iv, iv, iv, slLen(v), ew, slEl(v), iv))
 		}
 		return and(cs...)
